@@ -29,6 +29,13 @@ class Ctx:
     pass
 
 
+def cm_struct(ref, cls):
+    for e in ref["classmap"]:
+        if e["class"] == cls:
+            return e["struct"]
+    return cls
+
+
 def finding_key_for(c, kind, **kw):
     """stable key: the key of the findings/C18.jsonl entry whose lean_exceptions describe this
     disagreement, otherwise a generic key naming the struct/field/option"""
@@ -224,6 +231,17 @@ def _run(c):
             full["shadow"] = False
             if f[3] != "true":
                 named.append("ctypes field %s.%s shadows a property" % (f[1], f[2]))
+        elif f[0] == "CALLBACK" and f[3] != "ok":
+            model_bad.add((cm_struct(ref, f[1]), f[2], "signature"))
+            named.append("callback %s.%s signature" % (f[1], f[2]))
+        elif f[0] == "RESTYPE" and f[3] != "ok":
+            named.append("restype declaration of %s at %s" % (f[1], f[2]))
+        elif f[0] == "FNATTR" and f[4] != "true":
+            named.append("stray attribute %s.%s at %s" % (f[1], f[3], f[2]))
+        elif f[0] == "CALL" and f[5] != "true":
+            named.append("call of %s at %s: %s" % (f[1], f[2], f[4]))
+        elif f[0] in ("DESCR", "WARN", "ENUMFIELD"):
+            named.append(" ".join(f))
         elif f[0] == "COUNT" and int(f[2]) < int(f[3]):
             named.append("extraction found %s %s < floor %s" % (f[2], f[1], f[3]))
     c.cov["full_strength_statements_hold"] = full
@@ -253,8 +271,9 @@ def _run(c):
     # ================================================================ (d) the loaded library's own layout
     # reb_binary_field_descriptor_list carries offsetof() values computed INSIDE the library: the probe's
     # table must describe the library that is actually loaded
-    clib.reb_simulation_struct_size.restype = ctypes.c_size_t
-    libsize = clib.reb_simulation_struct_size()
+    _h = ctypes.CDLL(clib._name)        # own handle: do not touch the restype state of the package's function objects
+    _h.reb_simulation_struct_size.restype = ctypes.c_size_t
+    libsize = _h.reb_simulation_struct_size()
     c.count(("libsize",))
     if libsize != cs["structs"]["reb_simulation"]["size"]:
         c.corr_break("probe sizeof(struct reb_simulation)=%d but the loaded library says %d" % (cs["structs"]["reb_simulation"]["size"], libsize))
@@ -694,6 +713,33 @@ def _run(c):
                         {"python": "%s.%s = %r" % (fo["cls"], fo["prop"], fo["name"]), "stored": got, "symbol": want_sym, "address": addr})
         del sim
 
+    # ---- independent of how the setter is written (if-chain, table, …): every C function declared with the family's prefix is tried
+    # as an option name; a name the setter accepts must store exactly that function
+    rule.append("function-pointer options, setter-agnostic: every header function prefix+X is tried as option name X; if the property accepts it, the stored pointer must be &prefix+X")
+    for fam in ref["fn_options"]:
+        holder, off, size, m = locate({"struct": fam["struct"], "member": fam["member"], "class": fam["class"]})
+        known = {fo["name"] for fo in py["fnopts"] if fo["cls"] == fam["class"] and fo["prop"] == fam["property"]}
+        for fn_ in cs["functions"]:
+            if not fn_.startswith(fam["prefix"]):
+                continue
+            nm_ = fn_[len(fam["prefix"]):]
+            sim = rebound.Simulation()
+            c.count(("fnprobe", fam["class"], fam["property"], nm_))
+            try:
+                setattr(holder(sim), fam["property"], nm_)
+            except Exception:
+                if nm_ in known:
+                    c.violation("fnopt:%s.%s=%s" % (fam["class"], fam["property"], nm_), "%s.%s = %r raises although the setter names it" % (fam["class"], fam["property"], nm_), {"name": nm_})
+                continue
+            got = cbytes(sim, off, size)
+            addr_ = ctypes.cast(getattr(clib, fn_), ctypes.c_void_p).value
+            if got != addr_:
+                others = [g for g in cs["functions"] if hasattr(clib, g) and ctypes.cast(getattr(clib, g), ctypes.c_void_p).value == got] if got else []
+                c.violation("fnopt:%s.%s=%s" % (fam["class"], fam["property"], nm_),
+                            "%s.%s = %r stores %#x (%s) at %s.%s; &%s = %#x" % (fam["class"], fam["property"], nm_, got, others or "no exported function", fam["struct"], fam["member"], fn_, addr_),
+                            {"python": "sim = rebound.Simulation(); <%s of sim>.%s = %r" % (fam["class"], fam["property"], nm_), "stored": got, "stored_is": others, "symbol": fn_, "address": addr_})
+            del sim
+
     # ---- order independence for function-pointer options: X, then Y; X, then a Python callable, then Y
     rule.append("function-pointer options: all ordered pairs X -> Y and X -> python callable -> Y on the same simulation")
     byfam = {}
@@ -751,6 +797,220 @@ def _run(c):
                 c.violation(finding_key_for(c, "shadow", cls=cname, field=fname),
                             "%s.%s: the class body defines a property of that name but the attribute is the ctypes field descriptor (%s)" % (cname, fname, type(attr).__name__),
                             {"python": "type(rebound.%s.__dict__[%r])" % (cname, fname), "got": type(attr).__name__})
+
+    # ================================================================ full signatures (callbacks, restypes, call sites)
+    rule.append("callback fields: CFUNCTYPE return / argument kinds against the C member's prototype; every restype declaration and every clibrebound call "
+                "site (AST) against the C prototypes; in a fresh interpreter Python API calls reaching double / struct / pointer returning functions are "
+                "compared with calls through a second library handle whose restype/argtypes are built from the C prototype table")
+    ccb = {(x["struct"], x["member"]): x for x in cs["callbacks"]}
+
+    def kind_fits(ck, pk):
+        """Python-side replica of kindOk for signatures (independent of the Lean code)"""
+        if ck[0] == "int":
+            return pk == ck
+        if ck[0] == "enm":
+            return pk[0] == "int" and pk[2] == ck[3]
+        if ck[0] in ("f64", "f32", "chr", "void"):
+            return pk == ck
+        if ck[0] == "struct":
+            return pk[0] == "struct" and cm.get(pk[1], {}).get("struct") == ck[1]
+        if ck[0] == "ptr":
+            return pk[0] == "ptr" and (pk[1] == ["void"] or kind_fits(ck[1], pk[1]))
+        if ck[0] == "fptr":
+            return pk[0] == "fptr" and kind_fits(ck[1], pk[1]) and ck[2] == pk[2]
+        return False
+    for pcb in py["callbacks"]:
+        st = cm.get(pcb["cls"], {}).get("struct")
+        fld = [f for f in py["classes"][pcb["cls"]]["members"] if f["name"] == pcb["field"]][0]
+        over = [m["name"] for m in cs["structs"].get(st, {"members": []})["members"] if m["off"] == fld["off"]]
+        c.count(("callback", pcb["cls"], pcb["field"]))
+        cc = ccb.get((st, over[0])) if over else None
+        if cc is None or not kind_fits(cc["ret"], pcb["ret"]) or len(cc["args"]) != len(pcb["args"]) or \
+                not all(kind_fits(a, b) for a, b in zip(cc["args"], pcb["args"])):
+            exec_bad.add((st, pcb["field"], "signature"))
+            c.violation("callback-signature:%s.%s" % (pcb["cls"], pcb["field"]),
+                        "%s.%s is CFUNCTYPE(%s; %s) but struct %s.%s is %s" % (pcb["cls"], pcb["field"], pcb["ret"], pcb["args"], st, over, cc),
+                        {"class": pcb["cls"], "field": pcb["field"], "python": pcb, "c": cc})
+    # model verdicts on declarations / calls
+    bad_calls = [f for f in drv if f[0] == "CALL"]
+    bad_decl = [f for f in drv if f[0] == "RESTYPE" and f[3] != "ok"]
+    stray = [f for f in drv if f[0] == "FNATTR"]
+    c.cov["ffi"] = {"prototypes": len(cs["protos"]), "restype_declarations": len([d_ for d_ in py["ffi_decls"] if d_["attr"] == "restype"]),
+                    "call_sites": len(py["ffi_calls"]), "dynamic_getattr_sites": len(py["ffi_dynamic"]),
+                    "calls_with_unknown_argument_kinds": sum(1 for cl in py["ffi_calls"] if any(a[0] == "opaque" for a in cl["args"])),
+                    "unsound_calls": len(bad_calls), "bad_declarations": len(bad_decl), "stray_attributes": len(stray)}
+
+    def call_key(fn, site):
+        for e in c.findings:
+            for x in e.get("lean_exceptions", []):
+                if x["kind"] == "call" and (x["fn"], x["site"]) == (fn, site):
+                    return e["key"]
+        return "ffi-call:%s@%s" % (fn, site)
+    lib2 = ctypes.CDLL(clib._name)     # second handle: its function objects do not share restype with the package's
+
+    def ctype_of(k):
+        if k[0] == "f64":
+            return ctypes.c_double
+        if k[0] == "int":
+            return {(True, 4): ctypes.c_int32, (False, 4): ctypes.c_uint32, (True, 8): ctypes.c_int64, (False, 8): ctypes.c_uint64}.get((k[1], k[2]))
+        if k[0] == "void":
+            return None
+        return "unsupported"
+    for f in stray:
+        fnm, site, attr = f[1], f[2], f[3]
+        c.count(("fnattr", fnm, attr))
+        fobj = getattr(clib, fnm)
+        cret = cs["protos"].get(fnm, {}).get("ret")
+        demo = {"python": "rebound.clibrebound.%s.restype" % fnm, "got": getattr(fobj.restype, "__name__", str(fobj.restype)),
+                "stray_attribute": attr, "c_return": cret}
+        rt = ctype_of(cret) if cret else "unsupported"
+        if rt != "unsupported" and not cs["protos"][fnm]["args"]:
+            g = getattr(lib2, fnm)
+            g.restype = rt
+            demo["value_with_c_return_type"] = g()
+            demo["value_as_python_reads_it"] = fobj()
+        if fobj.restype is ctypes.c_int and cret not in (["void"], ["int", True, 4]):
+            c.violation(call_key(fnm, site), "%s: `clibrebound.%s.%s = …` is not a ctypes attribute; the function returns %s in C and is read as c_int" % (site, fnm, attr, cret), demo)
+    for f in bad_decl:
+        c.count(("restype", f[1], f[2]))
+        dd = [d_ for d_ in py["ffi_decls"] if d_["fn"] == f[1] and "%s:%s" % (d_["module"], d_["scope"]) == f[2]]
+        c.violation("ffi-restype:%s@%s" % (f[1], f[2]), "%s sets clibrebound.%s.restype = %s but the C function returns %s" % (f[2], f[1], dd[0]["text"] if dd else "?", cs["protos"].get(f[1], {}).get("ret")),
+                    {"site": f[2], "function": f[1], "declared": dd[0] if dd else None, "c": cs["protos"].get(f[1])})
+    for f in bad_calls:
+        fnm, site, why = f[1], f[2], f[4]
+        if f[5] == "true" and any(x[1] == fnm for x in stray):
+            continue              # same defect as the stray attribute above
+        c.count(("call", fnm, site))
+        pr = cs["protos"].get(fnm)
+        demo = {"site": site, "function": fnm, "why": why, "c_prototype": pr,
+                "call": [cl for cl in py["ffi_calls"] if cl["fn"] == fnm and "%s:%s" % (cl["module"], cl["scope"]) == site][:1]}
+        if pr and why == "no-restype" and all(a == ["f64"] for a in pr["args"]) and ctype_of(pr["ret"]) not in (None, "unsupported"):
+            vals = [0.3 + 0.8 * i for i in range(len(pr["args"]))]
+            g = getattr(lib2, fnm)
+            g.restype, g.argtypes = ctype_of(pr["ret"]), [ctypes.c_double] * len(vals)
+            h = getattr(ctypes.CDLL(clib._name), fnm)
+            h.argtypes = [ctypes.c_double] * len(vals)
+            demo.update(args=vals, value_with_c_return_type=g(*vals), value_with_default_restype=h(*vals))
+        c.violation(call_key(fnm, site), "%s calls clibrebound.%s: %s (C: %s)" % (site, fnm, why, pr), demo)
+    # executed sample in a fresh interpreter: the Python API call comes first, then the same C function through a second
+    # handle with restype/argtypes taken from the C prototype table
+    sample_src = r"""
+import sys, json, ctypes, struct, warnings
+warnings.filterwarnings("ignore")
+sys.path.insert(0, sys.argv[1])
+import rebound
+from ctypes import byref, c_double, c_int, c_uint32, c_char_p
+lib2 = ctypes.CDLL(rebound.clibrebound._name)
+def bits(x): return struct.pack("<d", x).hex()
+res = []
+def sim3():
+    s = rebound.Simulation(); s.add(m=1.); s.add(m=1e-3, a=1., e=0.1, inc=0.2); s.add(m=2e-3, a=2.3, e=0.3, f=1.); return s
+def dbl(fn, args, argtypes):
+    g = getattr(lib2, fn); g.restype = c_double; g.argtypes = argtypes; return g(*args)
+for name, fn in (("M_to_E", "reb_M_to_E"), ("E_to_f", "reb_E_to_f"), ("M_to_f", "reb_M_to_f")):
+    a = getattr(rebound, name)(0.3, 1.1); b = dbl(fn, (0.3, 1.1), [c_double, c_double]); res.append((fn, bits(a), bits(b)))
+a = rebound.mod2pi(7.5); b = dbl("reb_mod2pi", (7.5,), [c_double]); res.append(("reb_mod2pi", bits(a), bits(b)))
+s = sim3(); a = s.energy(); b = dbl("reb_simulation_energy", (byref(s),), [ctypes.c_void_p]); res.append(("reb_simulation_energy", bits(a), bits(b)))
+s = sim3(); L = s.angular_momentum()
+g = lib2.reb_simulation_angular_momentum; g.restype = rebound.vectors.Vec3dBasic; g.argtypes = [ctypes.c_void_p]; v = g(byref(s))
+res.append(("reb_simulation_angular_momentum", [bits(x) for x in L], [bits(v.x), bits(v.y), bits(v.z)]))
+s = sim3(); p = s.com(); g = lib2.reb_simulation_com_range; g.restype = rebound.Particle; g.argtypes = [ctypes.c_void_p, c_int, c_int]; q = g(byref(s), 0, 3)
+res.append(("reb_simulation_com_range", [bits(p.x), bits(p.m), bits(p.vy)], [bits(q.x), bits(q.m), bits(q.vy)]))
+s = sim3(); o = s.particles[1].orbit(primary=s.particles[0])
+g = lib2.reb_orbit_from_particle; g.restype = rebound.Orbit; g.argtypes = [c_double, rebound.Particle, rebound.Particle]; o2 = g(s.G, s.particles[1], s.particles[0])
+res.append(("reb_orbit_from_particle_err", [bits(o.a), bits(o.e), bits(o.inc), bits(o.f)], [bits(o2.a), bits(o2.e), bits(o2.inc), bits(o2.f)]))
+s = sim3(); a = s.particles[1] ** s.particles[2]
+g = lib2.reb_particle_distance; g.restype = c_double; g.argtypes = [ctypes.c_void_p, ctypes.c_void_p]; b = g(byref(s.particles[1]), byref(s.particles[2]))
+res.append(("reb_particle_distance", bits(a), bits(b)))
+a = rebound.hash("c18-sample").value; g = lib2.reb_hash; g.restype = c_uint32; g.argtypes = [c_char_p]; b = g(b"c18-sample"); res.append(("reb_hash", a, b))
+r = rebound.Rotation(angle=0.7, axis=[0.1, 0.2, 0.9]); ri = r.inverse()
+g = lib2.reb_rotation_inverse; g.restype = rebound.Rotation; g.argtypes = [rebound.Rotation]; r2 = g(r)
+res.append(("reb_rotation_inverse", [bits(ri.ix), bits(ri.iy), bits(ri.iz), bits(ri.r)], [bits(r2.ix), bits(r2.iy), bits(r2.iz), bits(r2.r)]))
+s = sim3(); s.init_megno(seed=5); s.integrate(1.0); a = s.megno(); b = dbl("reb_simulation_megno", (byref(s),), [ctypes.c_void_p]); res.append(("reb_simulation_megno", bits(a), bits(b)))
+print(json.dumps(res))
+"""
+    sf = os.path.join(work, "c18_sample.py")
+    with open(sf, "w") as f:
+        f.write(sample_src)
+    env = dict(os.environ)
+    env.pop("PYTHONPATH", None)
+    sp = subprocess.run([sys.executable, sf, d], capture_output=True, text=True, env=env, timeout=300)
+    if sp.returncode != 0:
+        c.corr_break("the foreign-call sample does not run: " + sp.stderr[-600:])
+    else:
+        for fnm, a, b in json.loads(sp.stdout.strip().splitlines()[-1]):
+            c.count(("ffi-sample", fnm))
+            if a != b:
+                c.violation("ffi-result:" + fnm, "the Python API reaches %s and reads %s; the C function returns %s" % (fnm, a, b),
+                            {"function": fnm, "python_api": a, "explicit_signature": b, "script": "rv/c18.py sample_src"})
+
+    # ================================================================ enumerations: every enumerator through the raw ctypes field
+    rule.append("every ctypes field laid over a C enumeration: each enumerator value (negative ones included) written at the C offset and read through the field")
+    for cname, cls in classes.items():
+        if cname not in cm or cm[cname]["struct"] not in cs["structs"]:
+            continue
+        st = cm[cname]["struct"]
+        for fld in py["classes"][cname]["members"]:
+            ms = corresponding(cs, ref, st, fld["name"], fld["kind"])
+            if not ms or ms[0]["kind"][0] != "enm" or fld["off"] != ms[0]["off"] or fld["kind"][0] != "int":
+                continue
+            buf = bytearray(max(ctypes.sizeof(cls), cs["structs"][st]["size"]))
+            obj = cls.from_buffer(buf)
+            for en, ev in cs["enums"][ms[0]["kind"][1]]:
+                buf[fld["off"]:fld["off"] + fld["size"]] = (ev % (1 << (8 * ms[0]["size"]))).to_bytes(ms[0]["size"], "little")
+                c.count(("enumfield", cname, fld["name"], en))
+                got = getattr(obj, fld["name"])
+                if got != ev:
+                    c.violation("enum-field:%s.%s" % (cname, fld["name"]), "%s = %d stored in struct %s.%s reads through %s.%s as %r" % (en, ev, st, ms[0]["name"], cname, fld["name"], got),
+                                {"enumerator": en, "value": ev, "read": got, "class": cname, "field": fld["name"]})
+            del obj
+
+    # ================================================================ binary field descriptors and binary warnings
+    rule.append("binary_field_descriptor_list() against the raw C array (C-side layout); BINARY_WARNINGS against enum reb_simulation_binary_error_codes; two codes provoked on the real library")
+    pdl, cdl = py.get("py_descriptors"), py.get("c_descriptors")
+    if pdl is None or cdl is None:
+        c.corr_break("descriptor lists could not be read: %s" % py.get("descriptor_error"))
+    else:
+        c.count(("descriptors",), n=len(cdl))
+        if len(pdl) != len(cdl):
+            c.violation("descriptor-list:length", "binary_field_descriptor_list() returns %d entries, the C array has %d (up to 'end')" % (len(pdl), len(cdl)),
+                        {"python": "len(rebound.binary_field_descriptor.binary_field_descriptor_list())", "got": len(pdl), "c": len(cdl)})
+        for i, (a, b) in enumerate(zip(pdl, cdl)):
+            if a != b:
+                c.violation("descriptor-list:%s" % b[2], "descriptor %d: Python sees %s, the C array holds %s" % (i, a, b), {"index": i, "python": a, "c": b})
+                break
+        dt = {v for _, v in cs["enums"].get("reb_binary_field_descriptor.dtype", [])}
+        for b in cdl:
+            if b[1] not in dt:
+                c.violation("descriptor-dtype:%s" % b[2], "descriptor %s has dtype %d which is no enumerator" % (b[2], b[1]), {"descriptor": b})
+    codes = dict(cs["enums"].get("reb_simulation_binary_error_codes", []))
+    bw = py.get("binary_warnings") or []
+    byval = {}
+    for en, ev in codes.items():
+        byval.setdefault(ev, []).append(en)
+    for major, wid, msg in bw:
+        c.count(("warning", wid))
+        ens = byval.get(wid, [])
+        kw = ref["opt"].get("warning_keywords", {}).get(ens[0] if ens else "", None)
+        if len(ens) != 1 or (("_ERROR_" in ens[0]) != major) or kw is None or kw not in msg.lower():
+            c.violation("binary-warning:%d" % wid, "BINARY_WARNINGS row (%s, %d, %r) vs C enumerators %s (expected phrase %r)" % (major, wid, msg[:60], ens, kw),
+                        {"row": [major, wid, msg], "enumerators": ens})
+    for en, ev in codes.items():
+        if ev and not any(w[1] == ev for w in bw):
+            c.violation("binary-warning-missing:%s" % en, "C code %s = %d has no row in BINARY_WARNINGS" % (en, ev), {"enumerator": en, "value": ev})
+    # provoke two codes on the real library
+    import warnings as _w
+    for what, fn_, en in (("open a missing file", lambda: rebound.Simulationarchive(os.path.join(work, "does-not-exist.bin")), "REB_SIMULATION_BINARY_ERROR_NOFILE"),):
+        c.count(("warning-live", en))
+        kw = ref["opt"].get("warning_keywords", {}).get(en, "\0")
+        try:
+            with _w.catch_warnings():
+                _w.simplefilter("ignore")
+                fn_()
+            c.violation("binary-warning-live:" + en, "%s does not raise" % what, {"action": what})
+        except Exception as e:
+            if kw not in str(e).lower():
+                c.violation("binary-warning-live:" + en, "%s raises %r, expected the message of %s" % (what, str(e)[:100], en), {"action": what, "error": str(e)})
 
     # ================================================================ correspondence: model verdicts == executed observations
     # (a field lying over a differently named member is a *name* disagreement for the executed sweep, which goes by
